@@ -10,6 +10,7 @@ package main
 import (
 	"fmt"
 	"go/ast"
+	"go/types"
 	"math/big"
 	"sort"
 	"strconv"
@@ -338,6 +339,49 @@ func init() {
 		reg, _ := strconv.Unquote(bl.Value)
 		k := Add(off, Resize(argTerm(e, a[2], n), 64, true))
 		return TV{V: e.ex.Rnum(reg, arr, k), Signed: true}
+	}
+	// feq(x, y): Go's == on float64 values (an uninterpreted relation on the IEEE bit patterns)
+	specFns["feq"] = func(e *Env, a []TV, n *ast.CallExpr) TV {
+		return TV{V: App("f64.eq", BoolSort, Resize(argTerm(e, a[0], n), 64, false), Resize(argTerm(e, a[1], n), 64, false))}
+	}
+	// fpslow(data, n, "setok"|"b"|"ovf"): the decimal slow path of internal/fp on data[:n] as the
+	// composition of the pure functions (*decimal).set (on a zero decimal) and (*decimal).floatBits
+	specFns["fpslow"] = func(e *Env, a []TV, n *ast.CallExpr) TV {
+		sv, ok := a[0].V.(*SliceV)
+		bl, ok2 := n.Args[2].(*ast.BasicLit)
+		if !ok || !ok2 {
+			e.fail("fpslow(data, n, \"what\")")
+		}
+		what, _ := strconv.Unquote(bl.Value)
+		ln := Resize(argTerm(e, a[1], n), 64, true)
+		setFn := e.ex.eng.lookupFunc("fp.(*decimal).set")
+		fbFn := e.ex.eng.lookupFunc("fp.(*decimal).floatBits")
+		if setFn == nil || fbFn == nil {
+			e.fail("fpslow: fp.(*decimal).set / floatBits not found")
+		}
+		dt := setFn.Params[0].Type().(*types.Pointer).Elem()
+		zero := e.ex.zeroValue(e.st, dt)
+		arr := e.ex.load(e.st, Place{Root: sv.Reg}).(*ArrayV).Arr
+		var flatSet []*Term
+		flatSet = append(flatSet, False)
+		e.ex.flattenEq(e.st, zero, &flatSet)
+		flatSet = append(flatSet, arr, sv.Off, ln)
+		setKey, fbKey := calleeKey(setFn), calleeKey(fbFn)
+		if what == "setok" {
+			return TV{V: App("pure."+setKey+".res0", BoolSort, flatSet...)}
+		}
+		state1 := e.ex.detValue("pure."+setKey+".arg0", zero, nil, flatSet)
+		var flatFB []*Term
+		flatFB = append(flatFB, False)
+		e.ex.flattenEq(e.st, state1, &flatFB)
+		switch what {
+		case "b":
+			return TV{V: App("pure."+fbKey+".res0", BV(64), flatFB...)}
+		case "ovf":
+			return TV{V: App("pure."+fbKey+".res1", BoolSort, flatFB...)}
+		}
+		e.fail("fpslow: unknown component %q", what)
+		return TV{}
 	}
 	specFns["accepts"] = func(e *Env, a []TV, n *ast.CallExpr) TV {
 		arr, off, ln := sliceArgs(e, a[0], n)
